@@ -285,6 +285,12 @@ def gen_xfer(rng):
     return "xfer %s %s %s %s" % (p, t, fmt_q(x), fmt_q(y))
 
 
+def gen_childmap(rng):
+    shape = rng.choice(["line", "quad", "hexa", "tria"])
+    dim = {"line": 1, "quad": 2, "hexa": 3, "tria": 2}[shape]
+    return "childmap %s %s" % (shape, " ".join(fs(small_q(rng, den=(1, 2, 3, 5, 7), lo=-1, hi=1)) for _ in range(dim)))
+
+
 def gen_gxfer(rng):
     """Global::Transfer around random P / T (T has the dimensions of P^T but other entries, so that calling the wrong
     stored matrix is visible)"""
@@ -432,6 +438,8 @@ class Tk:
         fp = self.nlist()
         self.expect("PAT")
         self.pat = (self.nlist(), self.nlist())
+        self.expect("REF")
+        self.ref = self.qlist()
         coarse = []
         for _ in range(ncells):
             cmap = self.nlist()
@@ -642,12 +650,49 @@ def _oracle(case, out):
         if not out.startswith("CERT "):
             return None if (not suff and out in ("ABORT", "EXC")) else "no certificates: " + out[:60]
         nest, cons, integ, maps = [int(v) for v in out.split()[1:5]]
+        param = out.split()[5]
+        derived = (cfg["shape"], cfg["space"]) in (("quad", "l1"), ("quad", "l2"), ("tria", "l1"), ("tria", "l2"),
+                                                    ("hexa", "l1"), ("hexa", "l2"))
+        if derived and param != "1":
+            return "basis values of a parametric Lagrange element are not the reference polynomials at (xi, A_c xi): PARAM=%s" % param
         if NESTED[cfg["space"]]:
             if not (nest and cons and maps):
                 return "hypotheses of the exactness theorems fail on a nested element family: NEST=%d CONS=%d MAPS=%d" % (
                     nest, cons, maps)
             if exact == "exact" and not integ:
                 return "the refined rule does not reproduce the coarse mass matrix although the rule is exact (INT=0)"
+        return None
+    if op == "childmap":
+        # independent statement of the refinement of the reference cell: the children tile it (weights sum to the
+        # parent weight) and the refined points of the barycentric/centre point are the children's centres
+        shape = c.tok()
+        xi = []
+        while not c.done():
+            xi.append(c.q())
+        if is_abnormal(out):
+            return "rule refinement ended with " + out
+        o = Tk(out)
+        o.expect("CM")
+        pts, ws = o.qlist(), o.qlist()
+        dim = len(xi)
+        nch = {"line": 2, "quad": 4, "hexa": 8, "tria": 4}[shape]
+        if len(ws) != nch or sum(ws) != 1 or len(pts) != nch * dim:
+            return "refined one-point rule does not have %d points of total weight 1" % nch
+        if shape != "tria":
+            for ch in range(nch):
+                for d in range(dim):
+                    exp = xi[d] / 2 + (F(1, 2) if (ch >> d) & 1 else F(-1, 2))
+                    if pts[ch * dim + d] != exp:
+                        return "child %d is not the sub-cube with offset bits of %d" % (ch, ch)
+        else:
+            vs = [[(0, 0), (F(1, 2), 0), (0, F(1, 2))], [(F(1, 2), 0), (1, 0), (F(1, 2), F(1, 2))],
+                  [(0, F(1, 2)), (F(1, 2), F(1, 2)), (0, 1)], [(F(1, 2), F(1, 2)), (0, F(1, 2)), (F(1, 2), 0)]]
+            for ch in range(4):
+                w = 1 - xi[0] - xi[1]
+                for a in range(2):
+                    exp = w * vs[ch][0][a] + xi[0] * vs[ch][1][a] + xi[1] * vs[ch][2][a]
+                    if pts[ch * 2 + a] != exp:
+                        return "child triangle %d is not the expected sub-triangle" % ch
         return None
     if op == "gforbid":
         return None if out.startswith("ABORT") else "a ghost-only member / prol_cancel did not assert: " + out[:60]
@@ -798,7 +843,7 @@ def nontrivial(case):
         return int(t[1]) >= 2
     if t[0] in ("xfer", "gxfer"):
         return len(case.split()) > 24
-    if t[0] == "gforbid":
+    if t[0] in ("gforbid", "childmap"):
         return True
     if t[0] in ("fe", "feo", "cert"):
         return not (t[2] == "d0" and t[4] == "0")
@@ -868,7 +913,7 @@ def main(argv):
     skipped = 0
     if args.replay:
         case = json.load(open(args.replay))["input"]
-        alg = [case] if case.split()[0] in ("inv", "xfer", "gxfer", "gforbid") else []
+        alg = [case] if case.split()[0] in ("inv", "xfer", "gxfer", "gforbid", "childmap") else []
         fe = [case] if case.startswith("fe ") else []
         if case.startswith("cert "):
             return vlib.run_pipeline(PROP, args.tier, args.seed, lean, [vlib.Stream(
@@ -883,8 +928,10 @@ def main(argv):
                 line, kind = gen_inv(rng)
                 INV_KIND[line] = kind
                 alg.append(line)
-            elif k < 0.85:
+            elif k < 0.80:
                 alg.append(gen_xfer(rng))
+            elif k < 0.85:
+                alg.append(gen_childmap(rng))
             else:
                 alg.append(gen_gxfer(rng))
         cfgs = list(CORPUS_CFG) + perm_state_cfgs() + family_cfgs(args.tier) + [gen_config(rng, args.tier) for _ in range(n_fe)]
